@@ -20,7 +20,9 @@ PRELUDE = ('mv_!(x: List!(Int, _)) =\n    print! x\n'
            'rf_!(ref! x: List!(Int, _)) =\n    print! x\n'
            'rr_!(ref x: List!(Int, _)) =\n    print! x\n'
            'im_(x: List(Int, _)) = len(x)\n'
-           'gen_|T|(x: T): T = x\n')
+           'gen_|T|(x: T): T = x\n'
+           'dfl_!(n: Int, buf: List!(Int, _) := ![0]) =\n    print! n, buf\n'
+           'dfi_!(dst: List!(Int, _), extra: List(Int, _) := [0]) =\n    print! dst, extra\n')
 
 
 def gen_history(rng, hid, want_violation, scope):
@@ -30,8 +32,8 @@ def gen_history(rng, hid, want_violation, scope):
     moved = {}
     k = 0
     pure = scope == "func"
-    move_kinds = ["bind", "list", "tuple"] + ([] if pure else ["mv-param"])
-    nonmove = ["im", "gen", "len"] + ([] if pure else ["ref!", "ref", "print", "interp"])
+    move_kinds = ["bind", "list", "tuple"] + ([] if pure else ["mv-param", "mv-default-param"])
+    nonmove = ["im", "gen", "len"] + ([] if pure else ["ref!", "ref", "print", "interp", "immutable-default-param"])
     info = {"move": None, "use": None}
     for _ in range(rng.randint(2, 7)):
         live = [n for n in names if n not in moved]
@@ -47,6 +49,8 @@ def gen_history(rng, hid, want_violation, scope):
                 lines.append(f"t{hid}_{k} = [{v}]")
             elif mk == "tuple":
                 lines.append(f"t{hid}_{k} = ({v}, 1)")
+            elif mk == "mv-default-param":
+                lines.append(f"dfl_! 2, {v}")       # positional argument for a parameter that has a default
             else:
                 lines.append(f"mv_! {v}")
             moved[v] = mk
@@ -57,13 +61,13 @@ def gen_history(rng, hid, want_violation, scope):
             v = names[0]
             k += 1
             mk = rng.choice(move_kinds)
-            lines.append({"bind": f"t{hid}_{k} = {v}", "list": f"t{hid}_{k} = [{v}]", "tuple": f"t{hid}_{k} = ({v}, 1)", "mv-param": f"mv_! {v}"}[mk])
+            lines.append({"bind": f"t{hid}_{k} = {v}", "list": f"t{hid}_{k} = [{v}]", "tuple": f"t{hid}_{k} = ({v}, 1)", "mv-param": f"mv_! {v}", "mv-default-param": f"dfl_! 2, {v}"}[mk])
             moved[v] = mk
         v = rng.choice(sorted(moved))
         uk = rng.choice(nonmove + move_kinds)
         k += 1
         if uk in move_kinds:
-            lines.append({"bind": f"t{hid}_{k} = {v}", "list": f"t{hid}_{k} = [{v}]", "tuple": f"t{hid}_{k} = ({v}, 1)", "mv-param": f"mv_! {v}"}[uk])
+            lines.append({"bind": f"t{hid}_{k} = {v}", "list": f"t{hid}_{k} = [{v}]", "tuple": f"t{hid}_{k} = ({v}, 1)", "mv-param": f"mv_! {v}", "mv-default-param": f"dfl_! 2, {v}"}[uk])
         else:
             lines.append(use_line(uk, v, hid, k))
         info = {"move": moved[v], "use": uk, "var": v}
@@ -79,6 +83,7 @@ def gen_history(rng, hid, want_violation, scope):
 
 def use_line(kind, v, hid, k):
     return {"im": f"u{hid}_{k} = im_({v})", "gen": f"u{hid}_{k} = gen_({v})", "len": f"u{hid}_{k} = len({v}) + 1",
+            "immutable-default-param": f"dfi_! ![9], {v}",
             "ref!": f"rf_! {v}", "ref": f"rr_! {v}", "print": f"print! {v}", "interp": f'u{hid}_{k} = "v=\\{{{v}}}"'}[kind]
 
 
